@@ -325,6 +325,24 @@ func registerProm(p *Program) {
 		}
 		return sl
 	})
+	// every numeric sample exported so far (the integer each value derives from)
+	p.reg("verif:verifAllValues", func(e *Exec, g *G, a []Value) Value {
+		var vals []Value
+		for _, ev := range e.sinks {
+			if ev.op == "inc" {
+				vals = append(vals, e.tc.Const(64, 1))
+				continue
+			}
+			t, _ := e.floatBaseInt(ev.f)
+			vals = append(vals, t)
+		}
+		it := types.Typ[types.Int64]
+		sl := e.makeSlice(it, e.tc.Const(64, uint64(len(vals))), len(vals))
+		for i, v := range vals {
+			sl.A.ov[i] = v.(*Term)
+		}
+		return sl
+	})
 	p.reg("verif:verifLabelLeaksAddr", func(e *Exec, g *G, a []Value) Value {
 		s := a[0].(*StrV)
 		switch s.Kind {
